@@ -234,6 +234,16 @@ def _run_case(case, ctx):
                       {"lenclasses": ",".join(sorted(set(len_class(s) for s in stored)))}, prop="C07")
         return
     ok = compare_listing(ctx, "C07", form, listed, stored, wit, check_ext=True)
+    if ok and stored:
+        # the same image handed over as bytes / bytearray (what open(path, "rb").read() gives) instead of a list of integers
+        for conv in (bytes, bytearray):
+            fm = "%s.buffer-%s" % (form, conv.__name__)
+            try:
+                ctx.mon("reader.list_files.bytes-like-buffer")
+                ok = compare_listing(ctx, "C07", fm, DiskFile(buffer=conv(written)).list_files(), stored, wit, check_ext=True) and ok
+            except Exception as e:
+                ctx.violation("disk-roundtrip", fm, "READER-RAISED:%s" % type(e).__name__, dict(wit, error=str(e)[:100]), prop="C07")
+                ok = False
     if ok and listed and sum(len(s["data"]) // 2 for s in stored) < 60000:
         # second generation: write the files just listed to a fresh disk and list again (disk-to-disk copy)
         try:
